@@ -150,6 +150,15 @@ on reload.  Any edit of these statements in `/repo` breaks this theorem. -/
 theorem C12_load_cut_matches_source :
     H5Gen.loadCut = modelLoadCut ∧ H5Gen.nextShape = modelNextShape := ⟨rfl, rfl⟩
 
+/-- event handles are independent: in the model an iterator is a value, so in a session holding several
+handles (`hs`) a step of handle `i` (creation, `next`, chunk reload — any new state `it'`) leaves
+what every other handle `j` shows unchanged.  That the CODE behaves like this (no storage shared
+between the iterators of a reader) is checked by the live-handle sessions of the correspondence run
+and by the object-identity probe of the search. -/
+theorem C12_handles_independent (hs : List It) (i j : Nat) (hij : i ≠ j) (it' : It) :
+    ((hs.set i it')[j]?).map current = (hs[j]?).map current := by
+  rw [List.getElem?_set_ne hij]
+
 /-! ### The unrepaired `_load_data` (cumulative cut) is wrong: sanity check that the theorems are not vacuous -/
 
 /-- `_load_data` as it was before the F8 repair: the loaded block is cut by cumulative lengths -/
